@@ -3,6 +3,7 @@ package props
 import (
 	"go/ast"
 	"go/constant"
+	"go/token"
 	"go/types"
 	"strconv"
 	"strings"
@@ -557,6 +558,12 @@ func checkR3(c *kit.Ctx, m *storeModel, ew *pointWriter, r3 *kit.Rule) {
 		c.Analysed(wf)
 		o := r3.Ob(wf, nil, "ancestor walk shape", "returns true when the searched id is met, recurses over every row of the edges query without tombstone filter")
 		checkWalkShape(c, m, wf, o)
+		for _, call := range cycVars {
+			if f.CalleeFunc(call) == wf {
+				o2 := r3.Ob(wf, call, "ancestor walk roles", "the walk starts at the new parent and searches for the node (or the reverse, downwards); the search target is forwarded unchanged and every queried row is visited")
+				checkWalkRoles(c, m, ew, wf, call, o2)
+			}
+		}
 	}
 }
 
@@ -1021,4 +1028,164 @@ func handlerFlow(c *kit.Ctx, m *storeModel, f *kit.Func, msg *types.Var, wcall *
 			o.OK("walker before ack on every success path")
 		}
 	}
+}
+
+// checkWalkRoles: direction and argument roles of a recursive ancestry walk.
+func checkWalkRoles(c *kit.Ctx, m *storeModel, ew *pointWriter, wf *kit.Func, site *ast.CallExpr, o *kit.Ob) {
+	info := wf.Info()
+	f := ew.F
+	recursive := false
+	for _, call := range wf.AllCalls(false) {
+		if wf.CalleeFunc(call) == wf {
+			recursive = true
+		}
+	}
+	if !recursive {
+		o.OK("not a recursive walk: judged by the shape obligation")
+		return
+	}
+	// the edge query and the parameter it starts from
+	var q *kit.SQLSite
+	for _, sx := range m.sql.Sites {
+		if sx.F == wf && sx.HasVerb("SELECT", "edges") && len(sx.Stmts) == 1 {
+			q = sx
+		}
+	}
+	if q == nil || len(q.Stmts[0].Where) != 1 || len(q.Args) != 1 {
+		o.Undecided("edge query of %s is not `… WHERE down=?` / `… WHERE up=?` with one argument", wf.Name)
+		return
+	}
+	dir := q.Stmts[0].Where[0] // "down": moves to the upper ends; "up": moves to the lower ends
+	params := wf.Params()
+	startIdx, targetIdx := -1, -1
+	for i, p := range params {
+		if kit.ObjOf(info, q.Args[0]) == types.Object(p) {
+			startIdx = i
+		}
+	}
+	if startIdx < 0 {
+		o.Undecided("the edge query of %s is not bound to a parameter", wf.Name)
+		return
+	}
+	ast.Inspect(wf.Body, func(n ast.Node) bool {
+		is, ok := n.(*ast.IfStmt)
+		if !ok {
+			return true
+		}
+		a, b, op, okc := kit.CmpAtom(is.Cond)
+		if !okc || op != token.EQL {
+			return true
+		}
+		for i, p := range params {
+			if i == startIdx {
+				continue
+			}
+			if (kit.ObjOf(info, a) == types.Object(p) && kit.ObjOf(info, b) == types.Object(params[startIdx])) ||
+				(kit.ObjOf(info, b) == types.Object(p) && kit.ObjOf(info, a) == types.Object(params[startIdx])) {
+				targetIdx = i
+			}
+		}
+		return true
+	})
+	if targetIdx < 0 {
+		o.Violation("%s never compares the id it walks from with the id it searches for", wf.Name)
+		return
+	}
+	// the recursive call
+	for _, call := range wf.AllCalls(false) {
+		if wf.CalleeFunc(call) != wf || len(call.Args) != len(params) {
+			continue
+		}
+		if kit.ObjOf(info, call.Args[targetIdx]) != types.Object(params[targetIdx]) {
+			o.Violation("the recursive call of %s passes `%s` as the searched id (must be forwarded unchanged)", wf.Name, wf.Str(call.Args[targetIdx]))
+			return
+		}
+		rs, _ := wf.Enclosing(call, func(n ast.Node) bool { _, ok := n.(*ast.RangeStmt); return ok }).(*ast.RangeStmt)
+		if rs == nil || rs.Value == nil {
+			o.Undecided("the recursive call of %s is not inside a range loop with a value variable", wf.Name)
+			return
+		}
+		nextArg := call.Args[startIdx]
+		rv := kit.ObjOf(info, rs.Value)
+		okNext := kit.ObjOf(info, nextArg) == rv
+		if sel, ok := ast.Unparen(nextArg).(*ast.SelectorExpr); ok && kit.ObjOf(info, sel.X) == rv {
+			want := map[string]string{"down": "Up", "up": "Down"}[dir]
+			okNext = sel.Sel.Name == want
+		}
+		if !okNext {
+			o.Violation("the recursive call of %s continues from `%s`, expected the %s end of the queried edge", wf.Name, wf.Str(nextArg), map[string]string{"down": "upper", "up": "lower"}[dir])
+			return
+		}
+		// the ranged collection holds every queried row
+		R := kit.ObjOf(info, rs.X)
+		fromWrapper := false
+		if as, ok := c.P.Parent(wf.File, q.Call).(*ast.AssignStmt); ok && len(as.Lhs) > 0 && kit.ObjOf(info, as.Lhs[0]) == R {
+			fromWrapper = q.Recv == "wrapper"
+		}
+		if !fromWrapper {
+			nApp, uncond := 0, 0
+			ast.Inspect(wf.Body, func(n ast.Node) bool {
+				as, ok := n.(*ast.AssignStmt)
+				if !ok || len(as.Lhs) != 1 || kit.ObjOf(info, as.Lhs[0]) != R {
+					return true
+				}
+				if cl, ok := ast.Unparen(as.Rhs[0]).(*ast.CallExpr); ok {
+					if b, ok := kit.Callee(info, cl).(*types.Builtin); ok && b.Name() == "append" {
+						nApp++
+						if fs, ok := c.P.Parent(wf.File, c.P.Parent(wf.File, as)).(*ast.ForStmt); ok && fs.Cond != nil {
+							if cc, ok := ast.Unparen(fs.Cond).(*ast.CallExpr); ok && kit.CallIs(info, cc, "database/sql.(*Rows).Next") {
+								uncond++
+							}
+						}
+					}
+				}
+				return true
+			})
+			switch {
+			case nApp == 0:
+				o.Violation("%s ranges over `%s`, which is never filled from the rows of the edge query: no parent is ever visited beyond the first level", wf.Name, wf.Str(rs.X))
+				return
+			case uncond == 0:
+				o.Violation("%s collects the queried rows only conditionally: some parent edges are not followed", wf.Name)
+				return
+			}
+		}
+	}
+	// roles at the call site: which writer parameter is node (down) and parent (up)
+	var node, parent *types.Var
+	for _, sx := range m.sql.Sites {
+		if sx.F.Root() != f || !sx.HasVerb("INSERT", "edges") || len(sx.Stmts) == 0 {
+			continue
+		}
+		for i, col := range sx.Stmts[0].Cols {
+			if i < len(sx.Args) {
+				switch col {
+				case "up":
+					if p := traceToParam(f, sx.Args[i], ew.IDs); p != nil {
+						parent = p
+					}
+				case "down":
+					if p := traceToParam(f, sx.Args[i], ew.IDs); p != nil {
+						node = p
+					}
+				}
+			}
+		}
+	}
+	if node == nil || parent == nil || len(site.Args) != len(params) {
+		o.Undecided("cannot relate the call `%s` to the node and parent parameters", f.Str(site))
+		return
+	}
+	wantStart, wantTarget := parent, node
+	if dir == "up" {
+		wantStart, wantTarget = node, parent
+	}
+	finfo := f.Info()
+	if kit.ObjOf(finfo, site.Args[startIdx]) != types.Object(wantStart) || kit.ObjOf(finfo, site.Args[targetIdx]) != types.Object(wantTarget) {
+		o.Violation("`%s` walks from `%s` looking for `%s`; a new edge %s->%s closes a cycle iff %s is reachable %s from %s, so the walk must start at `%s` and search for `%s`",
+			f.Str(site), f.Str(site.Args[startIdx]), f.Str(site.Args[targetIdx]), parent.Name(), node.Name(), wantTarget.Name(),
+			map[string]string{"down": "upwards", "up": "downwards"}[dir], wantStart.Name(), wantStart.Name(), wantTarget.Name())
+		return
+	}
+	o.OK("walks %s from %s searching %s; target forwarded, all rows visited", map[string]string{"down": "up", "up": "down"}[dir], wantStart.Name(), wantTarget.Name())
 }
